@@ -4,6 +4,7 @@ Imports the executable model only (core Lean + Lean.Data.Json), so it links as a
 -/
 import Lean.Data.Json
 import GontainerModel.Model.Runner
+import GontainerModel.Model.Runtime
 open Lean GM
 
 namespace Drv
@@ -179,6 +180,95 @@ def fnDefs (j : Json) : List Token.FnDef :=
     | .ok #[Json.str a, Json.str b, Json.str c] => some { name := a, goImport := b, goFn := c }
     | _ => none
 
+def primJ : Val → Json
+  | .null => Json.mkObj [("k", "nil")]
+  | .bool b => Json.mkObj [("k", "bool"), ("v", Json.bool b)]
+  | .int i => Json.mkObj [("k", "int"), ("v", toString i)]
+  | .uint n => Json.mkObj [("k", "uint64"), ("v", toString n)]
+  | .float r => Json.mkObj [("k", "float64"), ("v", r)]
+  | .str s => Json.mkObj [("k", "string"), ("v", s)]
+  | .other t => Json.mkObj [("k", t)]
+
+/-- `fx.Desc` of a runtime value, reading the heap as it is now -/
+def descRV (heap : List (Nat × Runtime.Obj)) : Nat → Runtime.RV → Json
+  | 0, _ => Json.mkObj [("k", "fuel")]
+  | f+1, v =>
+    let sl := fun (l : List Runtime.RV) => Json.mkObj [("k", "slice"), ("v", Json.arr (l.map (descRV heap f)).toArray)]
+    let objJ := fun (ptr : Bool) (serial : Nat) (o : Runtime.Obj) =>
+      Json.mkObj ([("k", Json.str "obj"), ("ptr", Json.bool ptr), ("serial", Json.num serial), ("ctor", Json.str o.ctor),
+        ("args", sl o.args),
+        ("log", Json.arr (o.log.map fun (m, as) => Json.mkObj [("m", m), ("args", sl as)]).toArray)] ++
+        (match o.f1 with | some x => [("F1", descRV heap f x)] | none => []) ++
+        (match o.f2 with | some x => [("F2", descRV heap f x)] | none => []) ++
+        (match o.prev with | some x => [("prev", descRV heap f x)] | none => []))
+    match v with
+    | .nil => Json.mkObj [("k", "nil")]
+    | .prim p => primJ p
+    | .nilobj => Json.mkObj [("k", "nilobj")]
+    | .container => Json.mkObj [("k", "container")]
+    | .slice l => sl l
+    | .anon ptr ctor => objJ ptr 0 { ctor := ctor, args := [] }
+    | .ref ptr n => match heap.lookup n with
+      | some o => objJ ptr n o
+      | none => Json.mkObj [("k", "dangling")]
+
+def rtResult (st : Runtime.St) (r : Except String Runtime.RV) : Json :=
+  match r with
+  | .ok v => Json.mkObj [("ok", descRV st.heap 40 v)]
+  | .error e => Json.mkObj [("err", e)]
+
+def specVal (st : Runtime.St) (spec : Json) : Runtime.St × Runtime.RV :=
+  match jstr spec "k" with
+  | "str" => (st, .prim (.str (jstr spec "v")))
+  | "int" => (st, .prim (.int ((spec.getObjValAs? Int "v").toOption.getD 0)))
+  | "obj" =>
+    let inner : Runtime.RV := match spec.getObjVal? "v" with
+      | .ok (Json.str s) => .prim (.str s)
+      | .ok (Json.num n) => .prim (.float (toString n.mantissa))
+      | _ => .nil
+    let (st', n) := Runtime.alloc st { ctor := "probe/fx.NewA", args := [.prim (.str "override"), inner] }
+    (st', .ref true n)
+  | _ => (st, .nil)
+
+def rtScript (p : Runtime.Prog) (ops : List Json) : List Json :=
+  let F := Runtime.fuel
+  (ops.foldl (fun (acc : Runtime.St × List Json) op =>
+    let (st, out) := acc
+    let a := (op.getArr?.toOption.getD #[]).toList
+    let s := fun (i : Nat) => ((a[i]?).bind (·.getStr?.toOption)).getD ""
+    match s 0 with
+    | "get" =>
+      let (st', _, r) := Runtime.get F p st [] (s 1)
+      (st', out ++ [rtResult st' r])
+    | "newctx" => ({ st with ctxBags := (s 1, []) :: st.ctxBags }, out ++ [Json.mkObj [("ok", "ctx")]])
+    | "getctx" =>
+      let bag := (st.ctxBags.lookup (s 1)).getD []
+      let (st', bag', r) := Runtime.get F p st bag (s 2)
+      let st'' := { st' with ctxBags := (s 1, bag') :: st'.ctxBags.filter (·.1 != s 1) }
+      (st'', out ++ [rtResult st'' r])
+    | "tagged" =>
+      let (st', _, r) := Runtime.getTagged F p st [] (s 1)
+      (st', out ++ [rtResult st' r])
+    | "taggedctx" =>
+      let bag := (st.ctxBags.lookup (s 1)).getD []
+      let (st', bag', r) := Runtime.getTagged F p st bag (s 2)
+      let st'' := { st' with ctxBags := (s 1, bag') :: st'.ctxBags.filter (·.1 != s 1) }
+      (st'', out ++ [rtResult st'' r])
+    | "param" =>
+      let (st', r) := Runtime.getParam F p st (s 1)
+      (st', out ++ [rtResult st' r])
+    | "ovparam" =>
+      let (st', v) := specVal st ((a[2]?).getD Json.null)
+      ({ st' with ovParams := (s 1, v) :: st'.ovParams.filter (·.1 != s 1), pcache := st'.pcache.filter (·.1 != s 1) },
+        out ++ [Json.mkObj [("ok", "overridden")]])
+    | "ovservice" =>
+      let (st', v) := specVal st ((a[2]?).getD Json.null)
+      ({ st' with ovServices := (s 1, v) :: st'.ovServices.filter (·.1 != s 1), shared := st'.shared.filter (·.1 != s 1) },
+        out ++ [Json.mkObj [("ok", "overridden")]])
+    | "evallog" => (st, out ++ [Json.mkObj [("ok", strList st.evalLog)]])
+    | "taggedorder" => (st, out ++ [Json.mkObj [("ok", strList (Runtime.taggedOrder p.out (s 1)))]])
+    | o => (st, out ++ [Json.mkObj [("badop", o)]])) (({} : Runtime.St), [])).2
+
 def handle (j : Json) : Json :=
   match jstr j "op" with
   | "ping" => Json.mkObj [("pong", true)]
@@ -273,6 +363,16 @@ def handle (j : Json) : Json :=
     let r := Runner.run w (fun _ => ce)
     Json.mkObj [("exit", Json.num r.exit), ("printed", strList r.printed), ("errors", strList r.errors),
       ("file", match r.file with | .untouched => Json.str "untouched" | .wrote _ t => Json.mkObj [("wrote", t)])]
+  | "rt" =>
+    let i := inputOfJson ((j.getObjVal? "input").toOption.getD Json.null)
+    match Compile.compile (jstr j "version") i with
+    | .error es => Json.mkObj [("errs", strList es)]
+    | .ok (o, st) =>
+      -- the template builder aliases its own imports after compilation; user imports are all in `st`
+      let p : Runtime.Prog :=
+        { out := o, imports := st.imports.map fun (path, a) => (a, path),
+          fns := (Compile.compileMeta i {}).2.2.1, env := pairList (jarr j "env") }
+      Json.mkObj [("results", Json.arr (rtScript p (jarr j "ops").toList).toArray)]
   | "version" =>
     Json.mkObj [("errs", strList (Semver.validateVersion (jstr j "build") (joptS j "given")))]
   | "decodeVersion" =>
